@@ -236,12 +236,12 @@ theorem reach_inside {ss : SymSet} {x : Ind} (h : WF ss x) {l0 : Locus} (h0 : In
 
 theorem SameShape.refl (x : Ind) : SameShape x x := ⟨rfl, rfl⟩
 
-theorem MutStep.refl (ss : SymSet) (pl : Nat) (x : Ind) : MutStep ss pl x x :=
+theorem MutStep.refl (ss : SymSet) (env : MepEnv) (x : Ind) : MutStep ss env x x :=
   ⟨SameShape.refl x, rfl, rfl, rfl, fun _ _ _ _ => Or.inl rfl⟩
 
-theorem MutStep.set {ss : SymSet} {pl : Nat} {pre y : Ind} (h : MutStep ss pl pre y)
-    {i c : Nat} {g : Gene} (hg : FreshGeneOK ss pre.rows pre.cols pl i c g) :
-    MutStep ss pl pre (setGene y i c g) := by
+theorem MutStep.set {ss : SymSet} {env : MepEnv} {pre y : Ind} (h : MutStep ss env pre y)
+    {i c : Nat} {g : Gene} (hg : FreshGeneOK ss pre.rows pre.cols env.patchLength i c g) :
+    MutStep ss env pre (setGene y i c g) := by
   obtain ⟨hs, hb, ha, hx, hgen⟩ := h
   refine ⟨hs, hb, ha, hx, ?_⟩
   intro i' hi' c' hc'
@@ -320,8 +320,8 @@ theorem unfoldF_stable {ss : SymSet} {x : Ind} (h : WF ss x) :
 
 /-! ### executable forms of the relations -/
 
-theorem mutStepStrongB_iff (ss : SymSet) (pl : Nat) (pre post : Ind) (n : Nat) :
-    mutStepStrongB ss pl pre post n = true ↔ MutStepStrong ss pl pre post n := by
+theorem mutStepStrongB_iff (ss : SymSet) (env : MepEnv) (pre post : Ind) (n : Nat) :
+    mutStepStrongB ss env pre post n = true ↔ MutStepStrong ss env pre post n := by
   simp [mutStepStrongB, MutStepStrong, List.all_eq_true, and_assoc]
 
 theorem treeXB_iff (frm to post : Ind) : treeXB frm to post = true ↔ TreeX frm to post := by
